@@ -272,13 +272,14 @@ def pipelineKeyOld (parentTruthy : Bool) (parentStr name : String) : String :=
 
       if path in _known_dirs and path not in _missing_dirs: return   -- spIdle → (done | spExists)
       if not path_obj.exists():                       -- spExists → (done | spWant)
-          _known_dirs.add(path); _missing_dirs.add(path); return
-      _missing_dirs.discard(path)
+          _missing_dirs.add(path); _known_dirs.add(path); return
       with _sys_path_lock:                            -- spWant → spLocked
           if path_str not in sys.path:                -- spLocked → spAppend | spRelease
               sys.path.append(path_str)               -- spAppend → spRelease
                                                       -- spRelease → spKnown
       _known_dirs.add(path)                           -- spKnown → done
+      _missing_dirs.discard(path)                     --   (only now: the unlocked early return above must not
+                                                      --    be open to others before the path is on sys.path)
 -/
 
 inductive SpPc where
@@ -313,7 +314,7 @@ def spStep (ex : Nat → Bool) (st : SpState) (t : Tid) : SpState :=
       if p ∈ st.known ∧ p ∉ st.missing then st.setThread t { th with ops := rest }
       else st.setThread t { ops := rest, pc := .spExists p }
   | .spExists p =>
-    if ex p then { st.setThread t { th with pc := .spWant p } with missing := st.missing.filter (· ≠ p) }
+    if ex p then st.setThread t { th with pc := .spWant p }
     else { st.setThread t { th with pc := .spIdle } with known := p :: st.known, missing := p :: st.missing }
   | .spWant p =>
     match st.lock with
@@ -324,7 +325,8 @@ def spStep (ex : Nat → Bool) (st : SpState) (t : Tid) : SpState :=
     else st.setThread t { th with pc := .spAppend p }
   | .spAppend p => { st.setThread t { th with pc := .spRelease p } with sysPath := st.sysPath ++ [p] }
   | .spRelease p => { st.setThread t { th with pc := .spKnown p } with lock := none }
-  | .spKnown p => { st.setThread t { th with pc := .spIdle } with known := p :: st.known }
+  | .spKnown p =>
+    { st.setThread t { th with pc := .spIdle } with known := p :: st.known, missing := st.missing.filter (· ≠ p) }
 
 def spRun (ex : Nat → Bool) (st : SpState) : List Tid → SpState
   | [] => st
@@ -332,6 +334,12 @@ def spRun (ex : Nat → Bool) (st : SpState) : List Tid → SpState
 
 def spInit (sysPath : List Nat) (prog : Tid → List Nat) : SpState :=
   { threads := fun t => { ops := prog t, pc := .spIdle }, lock := none, sysPath := sysPath, known := [], missing := [] }
+
+/-- a process with a history: `known` / `missing` as earlier calls left them (e.g. a directory that was missing
+    then and exists now is in both) -/
+def spInitH (sysPath known missing : List Nat) (prog : Tid → List Nat) : SpState :=
+  { threads := fun t => { ops := prog t, pc := .spIdle }, lock := none, sysPath := sysPath, known := known,
+    missing := missing }
 
 /-- places where the harness can park a thread inside `add_sys_path`: before the call, in
     `_sys_path_lock.__enter__`, in `_sys_path_lock.__exit__` -/
@@ -1147,15 +1155,25 @@ step of its own (each one is atomic in CPython; another thread can run between a
                                                  -- fIdle → fChkK (the call starts)
       if path in _known_dirs                     -- fChkK → fChkM | fExists
          and path not in _missing_dirs: return   -- fChkM → fIdle | fExists
-      if not path_obj.exists():                  -- fExists → fAddK | fDiscard
-          _known_dirs.add(path)                  -- fAddK → fAddM
-          _missing_dirs.add(path); return        -- fAddM → fIdle
-      _missing_dirs.discard(path)                -- fDiscard → fWant
+      if not path_obj.exists():                  -- fExists → fAddM | fWant
+          _missing_dirs.add(path)                -- fAddM → fAddK
+          _known_dirs.add(path); return          -- fAddK → fIdle
       with _sys_path_lock:                       -- fWant → fLocked
           if path_str not in sys.path:           -- fLocked → fAppend | fRelease
               sys.path.append(path_str)          -- fAppend → fRelease
                                                  -- fRelease → fKnown
-      _known_dirs.add(path)                      -- fKnown → fIdle
+      _known_dirs.add(path)                      -- fKnown → fDiscard
+      _missing_dirs.discard(path)                -- fDiscard → fIdle
+
+The ORDER of the last three matters to a concurrent caller: the unlocked early return trusts "known and not
+missing"; the path must be on `sys.path` before that becomes true. `fStepO` below is the same system with the
+order as a parameter (`FOrder.repaired` = `fStep`; `FOrder.discardFirst` = the order before the repair;
+`FOrder.knownFirst` = `_known_dirs.add` before the append): the two other orders let a call return for an
+existing directory that is not on `sys.path` (Props/C13.lean `*_breaks_returned_on_syspath`).
+In the not-exists branch `_missing_dirs.add` comes BEFORE `_known_dirs.add` for the same reason: "known and not
+missing" must never be true of a path that is not on `sys.path`, not even between two set operations
+(`FOrder.knownBeforeMissing` = the other order: a directory created at that moment is skipped by a concurrent caller).
+The file system may change at any moment: `fRunW` takes the exists() oracle per step.
 -/
 
 inductive FPc where
@@ -1192,10 +1210,10 @@ def fStep (ex : Nat → Bool) (st : FState) (t : Tid) : FState :=
     if p ∉ st.missing then st.setThread t { th with pc := .fIdle }
     else st.setThread t { th with pc := .fExists p }
   | .fExists p =>
-    if ex p then st.setThread t { th with pc := .fDiscard p } else st.setThread t { th with pc := .fAddK p }
-  | .fAddK p => { st.setThread t { th with pc := .fAddM p } with known := p :: st.known }
-  | .fAddM p => { st.setThread t { th with pc := .fIdle } with missing := p :: st.missing }
-  | .fDiscard p => { st.setThread t { th with pc := .fWant p } with missing := st.missing.filter (· ≠ p) }
+    if ex p then st.setThread t { th with pc := .fWant p } else st.setThread t { th with pc := .fAddM p }
+  | .fAddK p => { st.setThread t { th with pc := .fIdle } with known := p :: st.known }
+  | .fAddM p => { st.setThread t { th with pc := .fAddK p } with missing := p :: st.missing }
+  | .fDiscard p => { st.setThread t { th with pc := .fIdle } with missing := st.missing.filter (· ≠ p) }
   | .fWant p =>
     match st.lock with
     | some _ => st
@@ -1205,14 +1223,95 @@ def fStep (ex : Nat → Bool) (st : FState) (t : Tid) : FState :=
     else st.setThread t { th with pc := .fAppend p }
   | .fAppend p => { st.setThread t { th with pc := .fRelease p } with sysPath := st.sysPath ++ [p] }
   | .fRelease p => { st.setThread t { th with pc := .fKnown p } with lock := none }
-  | .fKnown p => { st.setThread t { th with pc := .fIdle } with known := p :: st.known }
+  | .fKnown p => { st.setThread t { th with pc := .fDiscard p } with known := p :: st.known }
 
 def fRun (ex : Nat → Bool) (st : FState) : List Tid → FState
   | [] => st
   | t :: ts => fRun ex (fStep ex st t) ts
 
+/-- the file system changes while the threads run: every step comes with the exists() oracle of its moment -/
+def fRunW (st : FState) : List ((Nat → Bool) × Tid) → FState
+  | [] => st
+  | (ex, t) :: ts => fRunW (fStep ex st t) ts
+
 def fInit (sysPath : List Nat) (prog : Tid → List Nat) : FState :=
   { threads := fun t => { ops := prog t, pc := .fIdle }, lock := none, sysPath := sysPath, known := [], missing := [] }
+
+/-- a process with a history: `known` / `missing` as earlier calls left them (a directory that was missing at an
+    earlier call and exists now is in both) -/
+def fInitH (sysPath known missing : List Nat) (prog : Tid → List Nat) : FState :=
+  { threads := fun t => { ops := prog t, pc := .fIdle }, lock := none, sysPath := sysPath, known := known,
+    missing := missing }
+
+/-- the path of the call a thread is in -/
+def FPc.path : FPc → Option Nat
+  | .fIdle => none
+  | .fChkK p | .fChkM p | .fExists p | .fAddK p | .fAddM p | .fDiscard p | .fWant p | .fLocked p | .fAppend p
+  | .fRelease p | .fKnown p => some p
+
+/-- Where the three steps `_missing_dirs.discard`, locked append, `_known_dirs.add` of the exists-branch go:
+    the successor of the exists() test, of the lock release, of `_known_dirs.add`, of `_missing_dirs.discard`. -/
+structure FOrder where
+  afterExists : Nat → FPc
+  afterRelease : Nat → FPc
+  afterKnown : Nat → FPc
+  afterDiscard : Nat → FPc
+  /-- the not-exists branch: successor of the exists() test, of `_missing_dirs.add`, of `_known_dirs.add` -/
+  afterNotExists : Nat → FPc := .fAddM
+  afterAddM : Nat → FPc := .fAddK
+  afterAddK : Nat → FPc := fun _ => .fIdle
+
+/-- append, `_known_dirs.add`, `_missing_dirs.discard` — the order of `fStep` -/
+def FOrder.repaired : FOrder :=
+  { afterExists := .fWant, afterRelease := .fKnown, afterKnown := .fDiscard, afterDiscard := fun _ => .fIdle }
+/-- `_missing_dirs.discard`, append, `_known_dirs.add` -/
+def FOrder.discardFirst : FOrder :=
+  { afterExists := .fDiscard, afterDiscard := .fWant, afterRelease := .fKnown, afterKnown := fun _ => .fIdle }
+/-- `_known_dirs.add`, `_missing_dirs.discard`, append -/
+def FOrder.knownFirst : FOrder :=
+  { afterExists := .fKnown, afterKnown := .fDiscard, afterDiscard := .fWant, afterRelease := fun _ => .fIdle }
+
+/-- the exists-branch as repaired; the not-exists branch `_known_dirs.add` first, `_missing_dirs.add` second -/
+def FOrder.knownBeforeMissing : FOrder :=
+  { FOrder.repaired with afterNotExists := .fAddK, afterAddK := .fAddM, afterAddM := fun _ => .fIdle }
+
+def fStepO (o : FOrder) (ex : Nat → Bool) (st : FState) (t : Tid) : FState :=
+  let th := st.threads t
+  match th.pc with
+  | .fIdle =>
+    match th.ops with
+    | [] => st
+    | p :: rest => st.setThread t { ops := rest, pc := .fChkK p }
+  | .fChkK p =>
+    if p ∈ st.known then st.setThread t { th with pc := .fChkM p }
+    else st.setThread t { th with pc := .fExists p }
+  | .fChkM p =>
+    if p ∉ st.missing then st.setThread t { th with pc := .fIdle }
+    else st.setThread t { th with pc := .fExists p }
+  | .fExists p =>
+    if ex p then st.setThread t { th with pc := o.afterExists p }
+    else st.setThread t { th with pc := o.afterNotExists p }
+  | .fAddK p => { st.setThread t { th with pc := o.afterAddK p } with known := p :: st.known }
+  | .fAddM p => { st.setThread t { th with pc := o.afterAddM p } with missing := p :: st.missing }
+  | .fDiscard p => { st.setThread t { th with pc := o.afterDiscard p } with missing := st.missing.filter (· ≠ p) }
+  | .fWant p =>
+    match st.lock with
+    | some _ => st
+    | none => { st.setThread t { th with pc := .fLocked p } with lock := some t }
+  | .fLocked p =>
+    if p ∈ st.sysPath then st.setThread t { th with pc := .fRelease p }
+    else st.setThread t { th with pc := .fAppend p }
+  | .fAppend p => { st.setThread t { th with pc := .fRelease p } with sysPath := st.sysPath ++ [p] }
+  | .fRelease p => { st.setThread t { th with pc := o.afterRelease p } with lock := none }
+  | .fKnown p => { st.setThread t { th with pc := o.afterKnown p } with known := p :: st.known }
+
+def fRunO (o : FOrder) (ex : Nat → Bool) (st : FState) : List Tid → FState
+  | [] => st
+  | t :: ts => fRunO o ex (fStepO o ex st t) ts
+
+def fRunOW (o : FOrder) (st : FState) : List ((Nat → Bool) × Tid) → FState
+  | [] => st
+  | (ex, t) :: ts => fRunOW o (fStepO o ex st t) ts
 
 def fEnabled (st : FState) (t : Tid) : Bool :=
   match (st.threads t).pc with
